@@ -1,5 +1,6 @@
 """C10 — Untrusted model files produce an error, never a crash or runaway allocation."""
 import os
+import re
 import resource
 import subprocess
 import time
@@ -73,6 +74,12 @@ def norm(s):
     if s == "panic:array-make-negative":
         return "alloc"
     return s
+
+
+def end_before_start(summary):
+    """ok summary `… to=<tensor data start> end=<end offset>`: a successful decode has read at least a 16-byte header"""
+    m = re.search(r" end=(-?\d+)$", summary)
+    return bool(m) and int(m.group(1)) < 16   # 16 = a version-1 header (magic, version, two 32-bit counts)
 
 
 def run_worker(ctx, binary, ops, outdir, total, hang_s=60, name="impl.txt"):
@@ -161,6 +168,9 @@ def run(ctx):
         # L2: the property itself on the real decoder
         if a.startswith("panic:") or a in ("alloc", "hang") or a.startswith("death"):
             failures.append({"kind": a.split(":other")[0], "case": op, "detail": f"maxArray={op.split()[1]} outcome={a}"})
+        elif a.startswith("ok ") and end_before_start(a):
+            failures.append({"kind": "end-not-after-start", "case": op, "detail": "Decode succeeded with an end offset inside the "
+                             "header it has just read (create's `for offset < size { _, n := Decode(); offset = n }` never ends): " + a[-60:]})
         if len(ctx.samples) < 3 and a.startswith("panic"):
             ctx.samples.append({"op": core.clip(op), "impl": a, "model": b})
     if len(impl) != len(model) or len(impl) != len(oplines):
@@ -184,6 +194,22 @@ def run(ctx):
                 v = int.from_bytes(raw[off:off + 8], "little")
                 if v == 0 or (1 << 16) <= v < (1 << 31):
                     continue        # counts and lengths are small or (already altered) huge
+                # values that make "data start + declared offset + size" wrap to 0 / a small number: taken from the real
+                # decoder's own summary of this input (tensor data start, end offset, their difference) and its neighbours
+                wraps = set()
+                for dd in ctx.l1_disagreements:
+                    if dd and dd.get("op") == op:
+                        m = re.search(r" to=(\d+) end=(-?\d+)", dd.get("impl", ""))
+                        if m:
+                            to, en = int(m.group(1)), int(m.group(2))
+                            for x in (to, en, en - to, en + to):
+                                for dl in (-64, -32, -8, 0, 8, 32, 64):
+                                    wraps.add(((1 << 64) - x + dl) % (1 << 64))
+                for nv in sorted(wraps)[:60]:
+                    b = raw[:off] + nv.to_bytes(8, "little") + raw[off + 8:]
+                    if b not in seen and len(cand) < 48000:
+                        seen.add(b)
+                        cand.append(f"gguf-safe {toks[1]} {1048576 + 64 * len(b)} {b.hex()}")
                 for base in (1 << 61, 1 << 62, 1 << 63, 1 << 64):
                     for k in range(0, 33):
                         nv = (base - k) % (1 << 64)
@@ -197,6 +223,11 @@ def run(ctx):
                             if b not in seen and len(cand) < 48000:
                                 seen.add(b)
                                 cand.append(f"gguf-safe {toks[1]} {1048576 + 64 * len(b)} {b.hex()}")
+        # the decoder accepted something the model rejects as an invalid (array element / value) type: if arrays may now
+        # hold arrays, nesting is unbounded: try deep nestings (12 bytes of input per level)
+        if any(d and d.get("model") == "err:invalid" and d.get("impl") != "err:invalid" for d in ctx.l1_disagreements):
+            for depth in (4, 1000, 3000000):
+                cand.append(f"gguf-nest 0 {1048576 + 64 * (60 + 12 * depth)} {depth}")
         if cand:
             dops = os.path.join(outdir, "directed_ops.txt")
             with open(dops, "w") as f:
@@ -206,6 +237,9 @@ def run(ctx):
             for op, a in zip(cand, dimpl):
                 if a.startswith("panic:") or a in ("alloc", "hang") or a.startswith("death"):
                     failures.append({"kind": a.split(":other")[0], "case": op, "detail": f"directed search near an L1 disagreement: outcome={a}"})
+                elif a.startswith("ok ") and end_before_start(a):
+                    failures.append({"kind": "end-not-after-start", "case": op, "detail": "directed search near an L1 disagreement: Decode "
+                                     "succeeded with an end offset inside the header (create's loop over the upload never ends): " + a[-60:]})
     # API level: crafted corpus + seeded mutants through upload/create/show in child processes
     if not ctx.replay:
         rc, out, apidir = ctx.go_test("./server/", API_OVERLAY, "^TestVerifC10API$",
